@@ -628,6 +628,21 @@ def runNumeric (lines : List String) : IO Unit := do
         for (nm, vv) in [("subtractDisconnected()", v1), ("subtractDisconnected(a,b)", v2), ("subtractDisconnected(EA,EB)", v3)] do
           if !closeC (v0 - vv) d (1.0e-9 * (1.0 + d.abs)) then
             a ← fail a "C14" s!"{nm}: value differs from the plain one by ({(v0 - vv).re},{(v0 - vv).im}) at n={n}, expected ({d.re},{d.im})"
+    | ["o", "chipurged", i, j, k, l, n1, n2, n3, re, im] =>
+      -- after a table computation that discarded the terms the object may refuse on-demand evaluation, but if it answers,
+      -- the answer must be the value of the table / of on-demand evaluation before
+      a := a.bump "purged_evaluations"
+      match lookupSeen a s!"chi {i} {j} {k} {l} {n1} {n2} {n3}" with
+      | some [y] => if !closeC (parseC re im) y (1.0e-10 * (1.0 + y.abs)) then
+          a ← fail a "C02" s!"after discarding the terms chi_{i}{j}{k}{l}({n1},{n2},{n3}) evaluates to ({(parseC re im).re},{(parseC re im).im}) instead of ({y.re},{y.im}) (or refusing)"
+      | _ => pure ()
+    | ["o", "suscreeval", p, q, r, t, n, b0r, b0i, x0r, x0i, a5r, a5i, x2r, x2i] =>
+      -- the SAME object evaluated before and after subtractDisconnected: before = plain value, after = subtracted value
+      a := a.bump "susc_reevaluations"
+      if b0r != x0r || b0i != x0i then
+        a ← fail a "C14" s!"chi_({p}{q})({r}{t})(n={n}): a fresh object evaluates differently on the first call"
+      if a5r != x2r || a5i != x2i then
+        a ← fail a "C14" s!"chi_({p}{q})({r}{t})(n={n}): evaluated before and again after subtractDisconnected the object returns ({(parseC a5r a5i).re},{(parseC a5r a5i).im}), a fresh object with the disconnected part subtracted ({(parseC x2r x2i).re},{(parseC x2r x2i).im})"
     | ["o", kind, p, q, r, t, n, r0, i0, r1, i1, r2, i2, r3, i3] =>
       -- copies of computed susceptibility objects evaluate like the originals (bitwise)
       if kind == "susccopy" || kind == "susccopytau" then
